@@ -1327,7 +1327,7 @@ func (fi *FuncInfo) dataflow() {
 					if po.must == nil {
 						continue
 					}
-					if gain := fi.successEdgeGain(f.Blocks[pn%n], b); len(gain) > 0 {
+					if gain := append(fi.successEdgeGain(f.Blocks[pn%n], b), fi.loopArrayGain(f.Blocks[pn%n], b)...); len(gain) > 0 {
 						// the edge on which a fallible setter's error is nil: the setter has written all of its receiver
 						po = state{must: po.must.Clone(), may: po.may}
 						for _, l := range gain {
@@ -1409,7 +1409,7 @@ func (fi *FuncInfo) dataflow() {
 					continue
 				}
 				must := pst.must.Clone()
-				for _, l := range fi.successEdgeGain(v.pred, v.to) {
+				for _, l := range append(fi.successEdgeGain(v.pred, v.to), fi.loopArrayGain(v.pred, v.to)...) {
 					must.Add(l)
 				}
 				fi.addReturnSite(sum, ret, state{must: must, may: pst.may}, v)
@@ -1930,4 +1930,103 @@ func (fi *FuncInfo) identityZeros(st *state, root Root, t types.Type) []Loc {
 		}
 	}
 	return zeros
+}
+
+// loopArrayGain: pb is the header of a counted loop `for i := 0; i < N; i++`
+// (N a constant) and b its exit. Every array of length N that the body writes
+// at index i on every iteration — by a store, or by a callee that always writes
+// the element it is handed — has been written completely when the loop is left
+// through its condition.
+func (fi *FuncInfo) loopArrayGain(pb, b *ssa.BasicBlock) []Loc {
+	if len(pb.Instrs) == 0 || len(pb.Succs) != 2 || pb.Succs[1] != b || pb.Succs[0] == b {
+		return nil
+	}
+	ifi, ok := pb.Instrs[len(pb.Instrs)-1].(*ssa.If)
+	if !ok {
+		return nil
+	}
+	bo, ok := ifi.Cond.(*ssa.BinOp)
+	if !ok {
+		return nil
+	}
+	idx, bound := bo.X, bo.Y
+	switch bo.Op {
+	case token.LSS:
+	case token.GTR:
+		idx, bound = bound, idx
+	default:
+		return nil
+	}
+	bc, ok := bound.(*ssa.Const)
+	if !ok || bc.Value == nil || bc.Value.Kind() != constant.Int {
+		return nil
+	}
+	n, _ := constant.Int64Val(bc.Value)
+	if start, step, isInd := load.Induction(idx); !isInd || start != 0 || step != 1 || n <= 0 {
+		return nil
+	}
+	body := pb.Succs[0]
+	inLoop := func(x *ssa.BasicBlock) bool { return x == body || body.Dominates(x) }
+	var latches []*ssa.BasicBlock
+	for _, pr := range pb.Preds {
+		if inLoop(pr) {
+			latches = append(latches, pr)
+		}
+	}
+	if len(latches) == 0 {
+		return nil
+	}
+	everyIteration := func(x *ssa.BasicBlock) bool {
+		for _, l := range latches {
+			if x != l && !x.Dominates(l) {
+				return false
+			}
+		}
+		return true
+	}
+	elemOf := func(addr ssa.Value) (Loc, bool) {
+		ia, ok := addr.(*ssa.IndexAddr)
+		if !ok || ia.Index != idx {
+			return Loc{}, false
+		}
+		var arr *types.Array
+		switch t := ia.X.Type().Underlying().(type) {
+		case *types.Pointer:
+			arr, _ = t.Elem().Underlying().(*types.Array)
+		}
+		if arr == nil || arr.Len() != n {
+			return Loc{}, false
+		}
+		pvs := fi.operand(ia.X)
+		if len(pvs) != 1 {
+			return Loc{}, false
+		}
+		return pvs[0].Loc, true
+	}
+	var out []Loc
+	for _, x := range fi.Fn.Blocks {
+		if !inLoop(x) || !everyIteration(x) {
+			continue
+		}
+		for _, in := range x.Instrs {
+			switch w := in.(type) {
+			case *ssa.Store:
+				if l, ok := elemOf(w.Addr); ok {
+					out = append(out, l)
+				}
+			case *ssa.Call:
+				h := w.Common().StaticCallee()
+				hi := fi.A.Info[h]
+				if h == nil || hi == nil || hi.Sum == nil {
+					continue
+				}
+				for k, a := range w.Common().Args {
+					if l, ok := elemOf(a); ok && hi.Sum.MustWrite.Has(Loc{Root: Root{Kind: KParam, Index: k}}) {
+						out = append(out, l)
+					}
+				}
+			}
+		}
+	}
+	return out
 }
